@@ -19,7 +19,8 @@ RULE = ('Generated leg: collections of 1..7 series, one case in 8 with 8..20 and
         'distance_array_index addresses the same elements; engines identical. Exhaustive leg: for every n <= 5 (quick) / 7 '
         '(thorough) every block x flag: _distance_matrix_length, _distance_matrix_idxs (with NumPy and in a NumPy-free '
         'child), dtw_distances_length and the C loop order (length-1 series whose values encode the index). Non-trivial: '
-        'a block is given, selects >= 1 pair, touches or crosses the diagonal, n >= 3.')
+        'a block is given, selects >= 1 pair, touches or crosses the diagonal, n >= 3.'
+        ' psi is None, 1 or a per-series list with zeroed entries (lopsided relaxations, d(a,b) != d(b,a)); compact results are also converted with distances_array_to_matrix (both forms) and recomputed through the function object of distance_matrix_func.')
 ASSUMPTIONS = ['block[2] is False with compact=False is rejected by the API and not generated',
                'with only_triu the diagonal is not fixed by the property (0 or inf accepted)']
 
@@ -101,8 +102,19 @@ def _case(draw):
     case = {'series': series, 'ndim': ndim, 'container': draw(st.sampled_from(conts)),
             'block': draw(block_strategy(n)), 'window': draw(st.one_of(st.none(), st.integers(1, 6))),
             'penalty': draw(st.sampled_from([None, None, 0.5, 1.0])),
-            'psi': draw(st.sampled_from([None, None, 1])) if min(lens) >= 3 else None,
+            'psi': None,
             'inner': draw(st.sampled_from(gen.INNER_NAMES)), 'form': draw(st.sampled_from(['compact', 'square', 'triu']))}
+    if min(lens) >= 3:
+        k = draw(st.sampled_from(['none', 'none', 'int', 'list', 'list']))
+        if k == 'int':
+            case['psi'] = 1
+        elif k == 'list':
+            # per-series relaxations (begin s1, end s1, begin s2, end s2), mostly lopsided: d(a, b) != d(b, a) then, so
+            # which series of a pair is the row matters (entries below the diagonal of a non-triangular block)
+            m = min(lens) - 1
+            p = [draw(st.integers(0, m)) for _ in range(4)]
+            mask = draw(st.integers(1, 15))
+            case['psi'] = [v if (mask >> i) & 1 else 0 for i, v in enumerate(p)]
     if case['block'] is not None and len(case['block']) > 2 and case['block'][2] is False:
         case['form'] = 'compact'
     return case
